@@ -552,13 +552,28 @@ func (f *Composite) unpack(data []byte, isVariableLength bool) (int, string, err
 	}
 	f.setSubfields = make(map[string]struct{})
 
-	if f.bitmap() != nil {
-		return f.unpackSubfieldsByBitmap(data)
+	var (
+		read int
+		tag  string
+		err  error
+	)
+	switch {
+	case f.bitmap() != nil:
+		read, tag, err = f.unpackSubfieldsByBitmap(data)
+	case f.spec.Tag.Enc != nil:
+		read, tag, err = f.unpackSubfieldsByTag(data)
+	default:
+		read, tag, err = f.unpackSubfields(data, isVariableLength)
 	}
-	if f.spec.Tag.Enc != nil {
-		return f.unpackSubfieldsByTag(data)
+	if err != nil {
+		// the subfield that failed is discarded with what it decoded before
+		// failing: it is not set, and must not keep values that come back
+		// when it is populated later
+		if _, ok := f.subfields[tag]; ok {
+			f.unsetSubfield(tag)
+		}
 	}
-	return f.unpackSubfields(data, isVariableLength)
+	return read, tag, err
 }
 
 func (f *Composite) unpackSubfields(data []byte, isVariableLength bool) (int, string, error) {
